@@ -25,9 +25,31 @@
    for abstract SMT atoms under the explicit premise that every instantiated atom is decided
    as its meaning says, and C03_eval_correct_atoms with NO premise on atoms for the concrete
    family (string (in)equality, str.len comparisons, true/false).
-   Missing for the full statement: match expressions (the model has them, the theorem does not),
-   the instantiation step inst_const (modelled, tied by the correspondence; no lemma yet that it
-   preserves `models`), the second strategy for numeric quantifiers (Z3 oracle). *)
+
+   PROOF EXTENSION (second half of this file; Logic/MatchFacts.v, EvalMexprFacts.v,
+   EvalMexprCheck.v): the guard `m = None` is GONE.  C03_eval_correct_mexpr (abstract atoms),
+   _open_scope, _atoms prove the same statement for formulas whose quantifiers may carry match
+   expressions (guard wfm, which contains wf: C03_wf_wfm), under these hypotheses per match
+   expression me of a quantifier over v:
+     mexpr_tree_ok v dom tp   for every prefix tree tp = (m, P) of me:  mtree_okb m P (every path
+                        of P ends in a leaf of m, every leaf of m is bound by exactly one variable
+                        of the leaf's type, terminal leaves by dummy variables, inner nodes not
+                        open), has_closed_nt_leaf m = false (the guard that keeps the known class
+                        K_mexpr_eps_shape excluded: C03_mexpr_eps_shape_rejected), variable names
+                        pairwise distinct, different from v's and from every name in scope;
+     mexpr_unambiguous ref me  all prefix trees of me matching a node of ref bind the same
+                        positions (e.g. at most one matches; decidable: C03_mexpr_unambiguousb_sound;
+                        cannot be dropped for the model: C03_eval_mexpr_ambiguous_refuted);
+   and on the tree: term_leavesb ref (a node labelled with a terminal has no children).
+   Proved on the way, for ALL prefix trees / subjects / paths: C03_py_match_spec (language.match
+   never raises, = the specification's match, complete), C03_smatch_perm, C03_smatch_shift.
+   Under these hypotheses the first-match rule of BindExpression.match and the leaf-coverage
+   filter of matches_for_quantified_formula are invisible.  All hypotheses are decidable
+   (mexpr_guard, C03_mexpr_guard_sound); the harness evaluates the guard on every generated
+   match-expression case (138 of 168 inside, quick tier).
+   Still missing for the full statement: the instantiation step inst_const (modelled, tied by the
+   correspondence; no lemma yet that it preserves `models`), the second strategy for numeric
+   quantifiers (Z3 oracle), BindExpression.to_tree_prefix (prefix trees are inputs). *)
 From Coq Require Import ZArith.
 From ISLA Require Import Semantics Eval EvalAtoms EvalFacts MatchFacts EvalMexprFacts EvalMexprCheck.
 
